@@ -628,6 +628,14 @@ def run(ctx):
     parts = simple_txt.split('],')
     simple = set(re.findall(r'"([^"]+)"', parts[0])) if parts else set()
     unclassified = re.findall(r'"([^"]+)"', parts[1]) if len(parts) > 1 else []
+    # DOWNGRADE RULE: operations whose shape the translator could not produce in this run (or that call one)
+    ttxt = A.with_fresh_gen(GENS, ['Corr/C08.vo'], lambda: C.coq_eval(
+        'C08', 'Lib.Prog Model.ApiShape Gen.ApiOps Corr.C08',
+        '(map (fun o => (o_name o, flat_map (fun s => match s with Untranslated w => [w] | _ => [] end) (o_steps o))) '
+        '(filter (tainted api_ops) api_ops))'))
+    downgraded = {}
+    for m in re.finditer(r'\("([A-Za-z_0-9]+)",\s*\[(.*?)\]\)', ttxt, flags=re.S):
+        downgraded[m.group(1)] = '; '.join(re.findall(r'"((?:[^"]|"")*)"', m.group(2)))[:300] or 'calls a downgraded operation'
     ccs = QUICK_CCS if q else list(range(1, 256))
     per_op = {}
     skipped = {}
@@ -747,6 +755,16 @@ def run(ctx):
         terms.append('chk_send %d%%nat %s %d%%nat %s' % (retry, c_replies(itf.log), len(itf.log), obs))
         meta.append(('send_message', retry, seq))
         D.add(('send', retry, tuple(seq)), True, 'send_message')
+    for dop, why in sorted(downgraded.items()):
+        if dop.startswith('_') or dop not in ops:
+            continue                     # private: exercised through the public operations that call it
+        bad = [k for k in fails if (':%s:' % dop) in k or k.endswith(':' + dop)]
+        if dop not in per_op or 'faults' in per_op[dop] or bad:
+            key = 'downgraded-without-oracle:%s' % dop
+            fails.setdefault(key, C.Violation(
+                key=key, what='%s: the translator could not produce its exchange shape in this run (%s): the class theorem '
+                'is not claimed for it, and the fault oracle did not exercise it cleanly' % (dop, why),
+                replay={'oracle': 'fault', 'input': {'op': dop, 'faults': {}}}, found_input=False))
     failing, errors = A.with_fresh_gen(GENS, ['Corr/C08.vo'], lambda: C.coq_cases(
         'C08', 'Lib.Prog Model.ApiShape Gen.ApiOps Corr.C08', terms))
     res.mismatches = [{'case': meta[i], 'term': terms[i][:500]} for i in failing[:50]]
@@ -763,6 +781,7 @@ def run(ctx):
         'ops_oracle_only': sorted(o for o in per_op if per_op[o]['class'] != 'simple_checked'),
         'ops_not_exercised': skipped,
         'ops_unclassified_by_model': unclassified,
+        'ops_downgraded': {k: v for k, v in downgraded.items() if k in ops},
         'per_op': per_op,
         'completion_codes': 'all 0x01..0xff' if not q else ['0x%02x' % c for c in ccs],
         'correspondence_cases': len(terms),
